@@ -621,3 +621,24 @@ def gen_pn_kernels(rng, n):
 
 
 PN_KERNEL_IMPORTS = ["Gen.ProxFuncs", "Gen.PenSeparable", "Gen.SparseOps", "Gen.DfSingle", "Gen.KernCD", "Gen.KernPN"]
+
+
+def add_pn_kernel_corr(base, rng, n, tag, only=None):
+    """run the prox-Newton kernel correspondence and merge it into the correspondence record `base` of a property"""
+    import tvlib
+    kc = gen_pn_kernels(rng, n)
+    if only:
+        kc = [c for c in kc if any(c[0].startswith(o) for o in only)]
+    r = tvlib.run_cases(kc, PN_KERNEL_IMPORTS, tag, shard=30, jobs=16)
+    out = dict(base)
+    out["cases"] = base.get("cases", 0) + len(kc)
+    out["bad"] = (list(base.get("bad", [])) + r["bad"])[:20]
+    out["errors"] = list(base.get("errors", [])) + r["errors"]
+    d = dict(base.get("distribution", {}))
+    kinds = {}
+    for lab, *_ in kc:
+        kinds[lab.split(" ")[0]] = kinds.get(lab.split(" ")[0], 0) + 1
+    d["prox_newton_kernels"] = kinds
+    out["distribution"] = d
+    out["distinct_nontrivial"] = base.get("distinct_nontrivial", 0) + len({c[0] for c in kc})
+    return out
